@@ -1,6 +1,10 @@
 package main
 
-import "encoding/binary"
+import (
+	"encoding/binary"
+
+	"github.com/free5gc/ike/message"
+)
 
 // ---------------------------------------------------------------------------
 // Transport corruption faults. Each returns the datagram the receiver sees.
@@ -112,6 +116,35 @@ func (w *World) applyFault(orig []byte, f *Fault) []byte {
 		copy(t[:], d[a:a+16])
 		copy(d[a:a+16], d[b:b+16])
 		copy(d[b:b+16], t[:])
+	case "extend_payload":
+		if f.Pl == nil {
+			return nil
+		}
+		var tail []byte
+		r := &callResult{}
+		guard(r, func() {
+			pl, err := buildPayload(f.Pl)
+			if err != nil {
+				return
+			}
+			c := message.IKEPayloadContainer{pl}
+			tail, _ = c.Encode()
+		})
+		if len(tail) < 4 {
+			return nil
+		}
+		for i := 0; i+1 < len(f.Edits); i += 2 {
+			if f.Edits[i] >= 0 {
+				tail[f.Edits[i]%len(tail)] = byte(f.Edits[i+1])
+			}
+		}
+		if f.Len > 0 && f.Len < len(tail) {
+			tail = tail[:f.Len]
+		}
+		if f.Val != 0 && len(tail) >= 4 {
+			binary.BigEndian.PutUint16(tail[2:4], uint16(len(tail)))
+		}
+		d = append(d, tail...)
 	case "garbage":
 		if len(f.Data) == 0 {
 			return nil
